@@ -534,3 +534,374 @@ pub fn snapshot(st: &Store) -> BTreeMap<Handle, String> {
 }
 
 pub fn _unused(_: &HashMap<u8, u8>) {}
+
+// ------------------------------------------------------------------------------------------------------------
+// C05 oracle: a plain ordered-tree model (Vec of children per node), independent of the Coq model.  It predicts
+// the store after a successful call from the store before it, and is compared with the read-back by canonical
+// text in which nodes that existed before keep their handle and new nodes / text nodes are anonymous (which of
+// two merged text nodes survives is not part of the contract, the character data and its position is).
+
+#[derive(Clone, Debug)]
+pub struct ONode {
+    pub val: OVal,
+    pub kids: Vec<Handle>,
+    pub parent: Option<Handle>,
+}
+
+#[derive(Clone, Debug, PartialEq)]
+pub enum OVal {
+    Doc,
+    El(usize),
+    Text(String),
+    Comment(String),
+    Pi(usize, Option<String>),
+    Attr(usize, String),
+    Ns(usize, usize),
+}
+
+impl OVal {
+    fn cat(&self) -> u8 {
+        match self { OVal::Ns(..) => 0, OVal::Attr(..) => 1, _ => 2 }
+    }
+    fn is_text(&self) -> bool { matches!(self, OVal::Text(_)) }
+}
+
+#[derive(Clone)]
+pub struct OForest {
+    pub nodes: BTreeMap<Handle, ONode>,
+    pub cons: bool,
+    next_new: u64,
+}
+
+pub fn oforest(st: &Store) -> OForest {
+    let mut nodes: BTreeMap<Handle, ONode> = BTreeMap::new();
+    for h in st.live_handles() {
+        let n = st.known[&h];
+        let val = match st.xot.value(n) {
+            Value::Document => OVal::Doc,
+            Value::Element(e) => OVal::El(st.reg.name_idx(e.name())),
+            Value::Text(t) => OVal::Text(t.get().to_string()),
+            Value::Comment(c) => OVal::Comment(c.get().to_string()),
+            Value::ProcessingInstruction(p) => OVal::Pi(st.reg.name_idx(p.target()), p.data().map(|s| s.to_string())),
+            Value::Attribute(a) => OVal::Attr(st.reg.name_idx(a.name()), a.value().to_string()),
+            Value::Namespace(ns) => OVal::Ns(st.reg.prefix_idx(ns.prefix()), st.reg.ns_idx(ns.namespace())),
+        };
+        nodes.insert(h, ONode { val, kids: vec![], parent: st.xot.parent(n).map(handle) });
+    }
+    // child lists in arena order
+    for r in st.roots() {
+        let mut stack: Vec<Handle> = vec![];
+        for e in st.xot.all_traverse(st.known[&r]) {
+            match e {
+                xot::NodeEdge::Start(x) => {
+                    let h = handle(x);
+                    if let Some(p) = stack.last() {
+                        nodes.get_mut(p).unwrap().kids.push(h);
+                    }
+                    stack.push(h);
+                }
+                xot::NodeEdge::End(_) => { stack.pop(); }
+            }
+        }
+    }
+    OForest { nodes, cons: !st.cons_off, next_new: 1_000_000 }
+}
+
+impl OForest {
+    fn fresh(&mut self, val: OVal) -> Handle {
+        self.next_new += 1;
+        let h = (self.next_new, -7);
+        self.nodes.insert(h, ONode { val, kids: vec![], parent: None });
+        h
+    }
+    fn is_text(&self, h: Handle) -> bool { self.nodes[&h].val.is_text() }
+    fn normal(&self, h: Handle) -> bool { self.nodes[&h].val.cat() == 2 }
+    /// merge kids[i+1] into kids[i] of `p` when both are text and consolidation is on
+    fn merge_at(&mut self, p: Handle, i: usize) {
+        if !self.cons { return; }
+        let kids = self.nodes[&p].kids.clone();
+        if i + 1 >= kids.len() { return; }
+        let (a, b) = (kids[i], kids[i + 1]);
+        if self.is_text(a) && self.is_text(b) {
+            let tb = if let OVal::Text(t) = &self.nodes[&b].val { t.clone() } else { unreachable!() };
+            if let OVal::Text(t) = &mut self.nodes.get_mut(&a).unwrap().val { t.push_str(&tb); }
+            self.nodes.get_mut(&p).unwrap().kids.remove(i + 1);
+            self.nodes.remove(&b);
+        }
+    }
+    /// take `n` out of its parent's child list (consolidating the gap); it becomes a root
+    fn cut(&mut self, n: Handle, consolidate: bool) {
+        if let Some(p) = self.nodes[&n].parent {
+            let pos = self.nodes[&p].kids.iter().position(|k| *k == n).unwrap();
+            self.nodes.get_mut(&p).unwrap().kids.remove(pos);
+            self.nodes.get_mut(&n).unwrap().parent = None;
+            if consolidate && pos > 0 { self.merge_at(p, pos - 1); }
+        }
+    }
+    /// insert root `n` into `p`'s child list at index `at`, then consolidate around it
+    fn insert(&mut self, p: Handle, at: usize, n: Handle) {
+        self.nodes.get_mut(&p).unwrap().kids.insert(at, n);
+        self.nodes.get_mut(&n).unwrap().parent = Some(p);
+        // later one merges into the earlier one: first with the left neighbour, then the right
+        if at > 0 {
+            let before = self.nodes[&p].kids.len();
+            self.merge_at(p, at - 1);
+            if self.nodes[&p].kids.len() < before { return; }
+        }
+        self.merge_at(p, at);
+    }
+    fn first_normal_index(&self, p: Handle) -> usize {
+        let k = &self.nodes[&p].kids;
+        k.iter().position(|c| self.normal(*c)).unwrap_or(k.len())
+    }
+    fn destroy(&mut self, n: Handle) {
+        let kids = self.nodes[&n].kids.clone();
+        for k in kids { self.destroy(k); }
+        self.nodes.remove(&n);
+    }
+    fn is_ancestor_or_self(&self, a: Handle, of: Handle) -> bool {
+        let mut c = Some(of);
+        while let Some(x) = c {
+            if x == a { return true; }
+            c = self.nodes[&x].parent;
+        }
+        false
+    }
+    fn index_in_parent(&self, n: Handle) -> Option<(Handle, usize)> {
+        let p = self.nodes[&n].parent?;
+        Some((p, self.nodes[&p].kids.iter().position(|k| *k == n).unwrap()))
+    }
+    /// canonical text: nodes of `old` keep their handle unless they are text; everything else is anonymous
+    pub fn canon(&self, old: &BTreeSet<Handle>) -> Vec<String> {
+        let mut roots: Vec<String> = self.nodes.iter().filter(|(_, n)| n.parent.is_none()).map(|(h, _)| self.canon_node(*h, old)).collect();
+        roots.sort();
+        roots
+    }
+    fn canon_node(&self, h: Handle, old: &BTreeSet<Handle>) -> String {
+        let n = &self.nodes[&h];
+        let tag = if old.contains(&h) && !n.val.is_text() { hs(h) } else { "*".to_string() };
+        let kids: Vec<String> = n.kids.iter().map(|k| self.canon_node(*k, old)).collect();
+        format!("({:?}@{} {})", n.val, tag, kids.join(" "))
+    }
+    fn copy_subtree(&mut self, n: Handle) -> Handle {
+        let val = self.nodes[&n].val.clone();
+        let c = self.fresh(val);
+        let kids = self.nodes[&n].kids.clone();
+        for k in kids {
+            let kc = self.copy_subtree(k);
+            self.nodes.get_mut(&kc).unwrap().parent = Some(c);
+            self.nodes.get_mut(&c).unwrap().kids.push(kc);
+        }
+        c
+    }
+    fn consolidate_all_under(&mut self, n: Handle) {
+        // clone_node replays appends with consolidation: adjacent text of the source is merged in the copy
+        let mut i = 0;
+        while i + 1 < self.nodes[&n].kids.len() {
+            let before = self.nodes[&n].kids.len();
+            self.merge_at(n, i);
+            if self.nodes[&n].kids.len() == before { i += 1; }
+        }
+        for k in self.nodes[&n].kids.clone() { self.consolidate_all_under(k); }
+    }
+}
+
+impl OForest {
+    fn any_adjacent_text(&self) -> bool {
+        self.nodes.values().any(|n| n.kids.windows(2).any(|w| self.is_text(w[0]) && self.is_text(w[1])))
+    }
+    /// merge every pair of adjacent text children of `p` (only called when no such pair existed before the call)
+    fn normalize(&mut self, p: Handle) {
+        if !self.nodes.contains_key(&p) { return; }
+        let mut i = 0;
+        while i + 1 < self.nodes[&p].kids.len() {
+            let before = self.nodes[&p].kids.len();
+            self.merge_at(p, i);
+            if self.nodes[&p].kids.len() == before { i += 1; }
+        }
+    }
+}
+
+/// Does the call satisfy the documented preconditions (so that it must succeed), and what must the store look like
+/// afterwards?  None = the oracle does not predict this call (refusals are C06's business).
+pub fn predict(before: &OForest, op: &Op) -> Option<OForest> {
+    use Op::*;
+    let mut f = before.clone();
+    if f.cons && f.any_adjacent_text() {
+        // adjacent text nodes left over from a time when consolidation was off: which pairs a later call merges is
+        // not part of the contract
+        return None;
+    }
+    let kind_ok_child = |f: &OForest, c: Handle| f.normal(c) && f.nodes[&c].val != OVal::Doc;
+    let parent_ok = |f: &OForest, p: Handle| matches!(f.nodes[&p].val, OVal::Doc | OVal::El(_));
+    match op {
+        Append(p, c) | Prepend(p, c) => {
+            if !parent_ok(&f, *p) || !kind_ok_child(&f, *c) || f.is_ancestor_or_self(*c, *p) { return None; }
+            let old_parent = f.nodes[c].parent;
+            f.cut(*c, false);
+            let at = if matches!(op, Append(..)) { f.nodes[p].kids.len() } else { f.first_normal_index(*p) };
+            f.nodes.get_mut(p).unwrap().kids.insert(at, *c);
+            f.nodes.get_mut(c).unwrap().parent = Some(*p);
+            if let Some(op_) = old_parent { f.normalize(op_); }
+            f.normalize(*p);
+            Some(f)
+        }
+        InsertAfter(r, n) | InsertBefore(r, n) => {
+            let p = f.nodes[r].parent?;
+            if r == n || !f.normal(*r) || !parent_ok(&f, p) || !kind_ok_child(&f, *n) || f.is_ancestor_or_self(*n, p) { return None; }
+            let old_parent = f.nodes[n].parent;
+            f.cut(*n, false);
+            let ri = f.nodes[&p].kids.iter().position(|k| k == r).unwrap();
+            let at = if matches!(op, InsertAfter(..)) { ri + 1 } else { ri };
+            f.nodes.get_mut(&p).unwrap().kids.insert(at, *n);
+            f.nodes.get_mut(n).unwrap().parent = Some(p);
+            if let Some(op_) = old_parent { f.normalize(op_); }
+            f.normalize(p);
+            Some(f)
+        }
+        Detach(n) => { let op_ = f.nodes[n].parent; f.cut(*n, false); if let Some(x) = op_ { f.normalize(x); } Some(f) }
+        Remove(n) => { let op_ = f.nodes[n].parent; f.cut(*n, false); f.destroy(*n); if let Some(x) = op_ { f.normalize(x); } Some(f) }
+        Replace(a, b) => {
+            let p = f.nodes[a].parent?;
+            if f.nodes[a].val == OVal::Doc || !f.normal(*a) || !kind_ok_child(&f, *b) || f.is_ancestor_or_self(*b, p) { return None; }
+            if a == b { return Some(f); }
+            let old_parent = f.nodes[b].parent;
+            f.cut(*b, false);
+            let ai = f.nodes[&p].kids.iter().position(|k| k == a).unwrap();
+            f.nodes.get_mut(&p).unwrap().kids[ai] = *b;
+            f.nodes.get_mut(b).unwrap().parent = Some(p);
+            f.nodes.get_mut(a).unwrap().parent = None;
+            f.destroy(*a);
+            if let Some(op_) = old_parent { f.normalize(op_); }
+            f.normalize(p);
+            Some(f)
+        }
+        Wrap(n, name) => {
+            if f.nodes[n].val == OVal::Doc || !f.normal(*n) { return None; }
+            if let Some(p) = f.nodes[n].parent {
+                if f.nodes[&p].val == OVal::Doc && !matches!(f.nodes[n].val, OVal::El(_)) { return None; }
+                let (_, i) = f.index_in_parent(*n).unwrap();
+                let w = f.fresh(OVal::El(*name));
+                f.nodes.get_mut(&p).unwrap().kids[i] = w;
+                f.nodes.get_mut(&w).unwrap().parent = Some(p);
+                f.nodes.get_mut(&w).unwrap().kids.push(*n);
+                f.nodes.get_mut(n).unwrap().parent = Some(w);
+            } else {
+                let w = f.fresh(OVal::El(*name));
+                f.nodes.get_mut(&w).unwrap().kids.push(*n);
+                f.nodes.get_mut(n).unwrap().parent = Some(w);
+            }
+            Some(f)
+        }
+        Unwrap(n) => {
+            if !matches!(f.nodes[n].val, OVal::El(_)) { return None; }
+            let normal_kids: Vec<Handle> = f.nodes[n].kids.iter().copied().filter(|k| f.normal(*k)).collect();
+            let abnormal: Vec<Handle> = f.nodes[n].kids.iter().copied().filter(|k| !f.normal(*k)).collect();
+            match f.nodes[n].parent {
+                None => {
+                    if normal_kids.len() > 1 { return None; }
+                    for a in abnormal { f.destroy(a); }
+                    for k in &normal_kids { f.nodes.get_mut(k).unwrap().parent = None; }
+                    f.nodes.remove(n);
+                }
+                Some(p) => {
+                    let (_, i) = f.index_in_parent(*n).unwrap();
+                    for a in abnormal { f.destroy(a); }
+                    f.nodes.get_mut(&p).unwrap().kids.remove(i);
+                    for (j, k) in normal_kids.iter().enumerate() {
+                        f.nodes.get_mut(&p).unwrap().kids.insert(i + j, *k);
+                        f.nodes.get_mut(k).unwrap().parent = Some(p);
+                    }
+                    f.nodes.remove(n);
+                    f.normalize(p);
+                }
+            }
+            Some(f)
+        }
+        CloneNode(n) => {
+            let c = f.copy_subtree(*n);
+            f.consolidate_all_under(c);
+            Some(f)
+        }
+        SetAttr(e, name, v) | AttrsEntryModify(e, name, v) | AttrsEntryOrInsert(e, name, v) | AttrsGetMutSet(e, name, v) => {
+            if !matches!(f.nodes[e].val, OVal::El(_)) { return None; }
+            let existing = f.nodes[e].kids.iter().copied().find(|k| matches!(&f.nodes[k].val, OVal::Attr(n, _) if n == name));
+            match (existing, op) {
+                (Some(a), SetAttr(..)) | (Some(a), AttrsEntryModify(..)) | (Some(a), AttrsGetMutSet(..)) => { f.nodes.get_mut(&a).unwrap().val = OVal::Attr(*name, v.clone()); }
+                (Some(_), _) => {}
+                (None, AttrsGetMutSet(..)) => {}
+                (None, _) => {
+                    let val = if matches!(op, AttrsEntryModify(..)) { format!("new:{}", v) } else { v.clone() };
+                    let a = f.fresh(OVal::Attr(*name, val));
+                    let at = f.first_normal_index(*e);
+                    f.nodes.get_mut(e).unwrap().kids.insert(at, a);
+                    f.nodes.get_mut(&a).unwrap().parent = Some(*e);
+                }
+            }
+            Some(f)
+        }
+        RmAttr(e, name) | AttrsEntryRemove(e, name) => {
+            if !matches!(f.nodes[e].val, OVal::El(_)) { return None; }
+            if let Some(a) = f.nodes[e].kids.iter().copied().find(|k| matches!(&f.nodes[k].val, OVal::Attr(n, _) if n == name)) {
+                f.cut(a, false);
+                f.destroy(a);
+            }
+            Some(f)
+        }
+        SetNs(e, p, n) | NsEntryOrInsert(e, p, n) | NsGetMutSet(e, p, n) => {
+            if !matches!(f.nodes[e].val, OVal::El(_)) { return None; }
+            let existing = f.nodes[e].kids.iter().copied().find(|k| matches!(&f.nodes[k].val, OVal::Ns(q, _) if q == p));
+            match (existing, op) {
+                (Some(a), SetNs(..)) | (Some(a), NsGetMutSet(..)) => { f.nodes.get_mut(&a).unwrap().val = OVal::Ns(*p, *n); }
+                (Some(_), _) => {}
+                (None, NsGetMutSet(..)) => {}
+                (None, _) => {
+                    let a = f.fresh(OVal::Ns(*p, *n));
+                    let at = f.nodes[e].kids.iter().position(|k| f.nodes[k].val.cat() != 0).unwrap_or(f.nodes[e].kids.len());
+                    f.nodes.get_mut(e).unwrap().kids.insert(at, a);
+                    f.nodes.get_mut(&a).unwrap().parent = Some(*e);
+                }
+            }
+            Some(f)
+        }
+        RmNs(e, p) => {
+            if !matches!(f.nodes[e].val, OVal::El(_)) { return None; }
+            if let Some(a) = f.nodes[e].kids.iter().copied().find(|k| matches!(&f.nodes[k].val, OVal::Ns(q, _) if q == p)) {
+                f.cut(a, false);
+                f.destroy(a);
+            }
+            Some(f)
+        }
+        AttrsClear(e) | NsClear(e) => {
+            if !matches!(f.nodes[e].val, OVal::El(_)) { return None; }
+            let want = if matches!(op, AttrsClear(_)) { 1 } else { 0 };
+            for k in f.nodes[e].kids.clone() {
+                if f.nodes[&k].val.cat() == want { f.cut(k, false); f.destroy(k); }
+            }
+            Some(f)
+        }
+        SetName(e, name) => {
+            if !matches!(f.nodes[e].val, OVal::El(_)) { return None; }
+            f.nodes.get_mut(e).unwrap().val = OVal::El(*name);
+            Some(f)
+        }
+        SetText(n, s) => { if f.is_text(*n) { f.nodes.get_mut(n).unwrap().val = OVal::Text(s.clone()); } Some(f) }
+        SetAttrValue(n, s) => { if let OVal::Attr(a, _) = f.nodes[n].val.clone() { f.nodes.get_mut(n).unwrap().val = OVal::Attr(a, s.clone()); } Some(f) }
+        SetNsValue(n, u) => { if let OVal::Ns(p, _) = f.nodes[n].val.clone() { f.nodes.get_mut(n).unwrap().val = OVal::Ns(p, *u); } Some(f) }
+        SetPiData(n, d) => {
+            if let OVal::Pi(t, _) = f.nodes[n].val.clone() {
+                let d = d.clone().filter(|s| !s.is_empty());
+                f.nodes.get_mut(n).unwrap().val = OVal::Pi(t, d);
+            }
+            Some(f)
+        }
+        NewDoc => { f.fresh(OVal::Doc); Some(f) }
+        NewEl(n) => { f.fresh(OVal::El(*n)); Some(f) }
+        NewText(s) => { f.fresh(OVal::Text(s.clone())); Some(f) }
+        NewComment(s) => { f.fresh(OVal::Comment(s.clone())); Some(f) }
+        NewPi(n, d) => { f.fresh(OVal::Pi(*n, d.clone())); Some(f) }
+        NewAttr(n, v) => { f.fresh(OVal::Attr(*n, v.clone())); Some(f) }
+        NewNs(p, n) => { f.fresh(OVal::Ns(*p, *n)); Some(f) }
+        _ => None,
+    }
+}
